@@ -49,4 +49,6 @@ PROPERTIES
   Act_X02_BlockedUntouched
   Act_X02_ModuleOnlyGifts
   Act_X02_DonateFrame
+  Act_X02_RegistryStable
+  Act_C02_PoolFresh
 CHECK_DEADLOCK FALSE
